@@ -1082,9 +1082,11 @@ def rule_c07(ctx, prog, rule="R19"):
         # weighted_var returns inner_weighted_var(self, weights, ddof, zero)
         finals = [ds(wv.def_expr(0, d)) for d in wv.reaching_defs(0, wv.exits()[0], "term")]
         # the kernel may return the value itself (wrapped in Ok here) or a Result (returned as is)
+        finals = [f for f in finals if not (isinstance(f, tuple) and ((f[0] == "agg" and f[2] == "Err") or (f[0] == "call" and f[1] == "from_residual")))]
         finals = [ds(f[3][0]) if (isinstance(f, tuple) and f[0] == "agg" and f[2] == "Ok" and f[3]) else f for f in finals]
         call = [f for f in finals if isinstance(f, tuple) and f[0] == "call" and f[1] == "inner_weighted_var"]
-        ok1 = len(call) == 1 and call[0][3][0][:2] == ("param", 1) and call[0][3][1][:2] == ("param", 2) and call[0][3][2][:2] == ("param", 3)
+        # every non-error value handed back is the kernel's (no second success path that bypasses it)
+        ok1 = len(call) == 1 and len(finals) == 1 and call[0][3][0][:2] == ("param", 1) and call[0][3][1][:2] == ("param", 2) and call[0][3][2][:2] == ("param", 3)
         zero1 = call[0][3][3] if call else None
         ok2 = False
         detail2 = "no map_axis(self, axis, closure)"
@@ -1122,6 +1124,14 @@ def rule_c07(ctx, prog, rule="R19"):
         ctx.ob("R13", "weighted_var_axis/lane-kernel", ok2, wva.where(), detail2, what="per-axis variance is not the whole-array kernel per lane")
     except Unrecognised as ex:
         unrec(ctx, "R13", "weighted_var_axis/lane-kernel", wva.where(), ex)
+    # ddof precondition: the assertion lets every ddof in [0, 1] through (C07 quantifies over those; the common 0 and 1 included)
+    from .rules_result import rule_guard_table
+    for rb_, pi in ((wv, 3), (wva, 4)):
+        rule_guard_table(ctx, prog.tracked(rb_), "%s/ddof-assert" % rb_.name,
+                         involves=lambda e, pi=pi: isinstance(e, tuple) and e[:2] == ("param", pi),
+                         leaf_for=lambda s_, pi=pi: (lambda e: s_ if (isinstance(e, tuple) and e[:2] == ("param", pi)) else None),
+                         samples=[-1, 0, 0.5, 1, 2], expect_diverge=lambda s_: False if 0 <= s_ <= 1 else None, describe=lambda s_: "ddof = %s" % s_,
+                         rule="R13", what="ddof assertion rejects a valid ddof or admits an invalid one")
     for name, base in (("weighted_std", "weighted_var"), ("weighted_std_axis", "weighted_var_axis")):
         root = S(name)
         ok = False
@@ -1204,9 +1214,20 @@ def edge_terms(prog):
     if not (isinstance(de, tuple) and de[0] == "call" and de[1] in ("le", "lt", "ge", "gt") and len(de[3]) == 2):
         raise Unrecognised("n_bins: loop condition `%s`" % fmt(de))
     lhs, rhs = de[3]
+    rel = de[1]
     if self_field_leaf(rhs) != ("sym", "self.max") and self_field_leaf(lhs) == ("sym", "self.max"):
         lhs, rhs = rhs, lhs
-    out["cmp_op"] = de[1]
+        rel = {"le": "ge", "lt": "gt", "ge": "le", "gt": "lt"}[rel]
+    # normalise to the relation `edge REL max` under which the loop keeps counting
+    sw = tn.term(bb)
+    f_t = [tgt for v, tgt in sw["arms"] if v == 0]
+    stays_on_true = sw["otherwise"] in stay and not (f_t and f_t[0] in stay)
+    stays_on_false = bool(f_t) and f_t[0] in stay and sw["otherwise"] not in stay
+    if stays_on_false:
+        rel = {"le": "gt", "lt": "ge", "ge": "lt", "gt": "le"}[rel]
+    elif not stays_on_true:
+        rel = "?"
+    out["cmp_op"] = rel
     out["cmp_against_max"] = self_field_leaf(rhs) == ("sym", "self.max")
     # returned counter
     r = ds(tn.return_expr())
@@ -1362,7 +1383,7 @@ def rule_r17(ctx, prog, rule="R17"):
                % show(et["pushed"]) if same else
                "n_bins() compares `%s` with max, build() pushes `%s`: not the same operations" % (show(et["compared"]), show(et["pushed"])),
                what="n_bins and build use different edge formulas")
-    ctx.ob(rule, "EquiSpaced/n_bins/compares-with-max", et["cmp_against_max"] and et["cmp_op"] in ("le", "gt"), wn,
+    ctx.ob(rule, "EquiSpaced/n_bins/compares-with-max", et["cmp_against_max"] and et["cmp_op"] == "le", wn,
            "counting continues while edge <= self.max (so the last edge is strictly above the maximum)" if et["cmp_against_max"] else
            "loop condition does not compare the edge with self.max", what="bin counting not bounded by the maximum")
     ctx.ob(rule, "EquiSpaced/n_bins/counter", et["counter_step"] == ("add", ("sym", "CTR"), ("num", 1)) and et["counter_init"][0] == "num",
@@ -1597,12 +1618,16 @@ def rule_moment_results(ctx, prog, cm=None, cms=None, bb1=None, rule="R13"):
     # what the single routine hands back in the general case is the polynomial's value itself (nothing applied afterwards)
     tb1 = prog.tracked(cm)
     want = ds(tb1.call_expr(bb1))
-    others = [ds(v) for _, v in success_values(tb1)]
-    others = [v for v in others if not (isinstance(v, tuple) and v[0] == "call" and v[1] in ("one", "zero") and not v[3])]
-    okh = bool(others) and all(v == want for v in others)
+    allv = [ds(v) for _, v in success_values(tb1)]
+    consts = [v for v in allv if isinstance(v, tuple) and v[0] == "call" and v[1] in ("one", "zero") and not v[3]]
+    others = [v for v in allv if v not in consts]
+    # exactly the two constant arms (order 0 → one(), order 1 → zero(): tied to their arms by order-0-1-constant) and the polynomial
+    okh = bool(others) and all(v == want for v in others) and sorted(v[1] for v in consts) == ["one", "zero"]
     ctx.ob(rule, "central_moment/returns-horner", okh, cm.where(bb1, "term"),
            "for order ≥ 2 the success value is horner_method(coefficients, correction) unchanged" if okh else
-           "for order ≥ 2 the success value is `%s`, not the value of the polynomial" % (fmt(others[0])[:100] if others else "missing"),
+           ("for order ≥ 2 the success value is `%s`, not the value of the polynomial" % (fmt([v for v in others if v != want][0])[:100])
+            if [v for v in others if v != want] else "success values besides the polynomial are %s, expected exactly one() for order 0 and zero() for order 1"
+            % [fmt(v) for v in consts]),
            what="central moment post-processed after the polynomial evaluation")
     # the bulk routine's vector is only ever mutated by the pushes of the k-loop (no reverse/sort/truncate/in-place edit afterwards)
     tb2 = prog.tracked(cms)
@@ -1627,6 +1652,9 @@ def rule_moment_results(ctx, prog, cm=None, cms=None, bb1=None, rule="R13"):
             if dd[0] != "entry" and isinstance(dd[1], tuple) and dd[1][0] == "mut":
                 muts.append((dd[0], callee_name(tb2.term(dd[0]))))
     bad = [m for m in muts if m[1] != "push"]
+    n_succ = len(list(success_values(tb2)))
+    if n_succ != 3 and not bad:
+        bad = [(0, "%d success values (expected the order-0 vector, the order-1 vector and the pushed vector)" % n_succ)]
     ctx.ob(rule, "central_moments/vector-only-pushed", not bad and bool(muts), cms.where(),
            "the returned vector is mutated by the k-loop's push only (%d site(s))" % len(muts) if (not bad and muts) else
            ("the returned vector is also mutated by `%s` at %s" % (bad[0][1], tb2.where(bad[0][0], "term")) if bad else "no push into the returned vector found"),
@@ -1711,6 +1739,11 @@ def rule_c18_moments(ctx, prog, rule="R13"):
         okr = okp = False
     ctx.ob(rule, "central_moments/k-range", okr and okp, cms.where(), "entries 2..=order are pushed in increasing k after [one, zero]" if okr and okp else
            "bulk loop is not `for k in 2..=order { push(horner(..)) }`", what="bulk moments not in order k")
+    rule_moments_vector(ctx, prog, rule)
+
+
+def rule_moments_vector(ctx, prog, rule="R13"):
+    """shape of the raw-moment vector built by the private `moments`: entry k is the k-th raw moment for every k <= order"""
     # prefix independence of `moments`: the k-th pushed raw moment does not depend on `order`
     mo = prog.find("summary_statistics::means::moments")
     tm = prog.tracked(mo)
@@ -1734,6 +1767,31 @@ def rule_c18_moments(ctx, prog, rule="R13"):
     except Unrecognised as ex:
         detail = "anchor not recognised: %s" % ex
     ctx.ob(rule, "moments/prefix-independent", okm, mo.where(), detail, what="raw moment k depends on the requested order")
+    # entry 1 of the raw-moment vector (the mean of the shifted data, from which the correction term is read) is present for every
+    # order >= 1: the push outside the k-loop is guarded by a condition that holds exactly for order >= 1
+    from .rules_unsafe import bool_branch_dominating
+    from .rules_result import eval_cond
+    okf, fdetail = False, "anchor not recognised: no push of the first raw moment outside the k-loop"
+    try:
+        loop_blocks = T.Loop(tm).blocks
+    except Unrecognised:
+        loop_blocks = set()
+    outer = [pb for pb, t in tm.calls() if callee_name(t) == "push" and pb not in loop_blocks]
+    if len(outer) == 1:
+        doms = bool_branch_dominating(tm, outer[0], lambda de: True)
+        badk = []
+        for k in range(2, 7):      # both callers handle orders 0 and 1 themselves (order-0-1-constant) and pass n >= 2 only
+            leaf = lambda e, k=k: k if (isinstance(e, tuple) and e[:2] == ("param", 2)) else None
+            vals = [eval_cond(de, leaf) for _bb, _tv, de in doms]
+            if any(v is None for v in vals):
+                badk.append("order %d: condition not evaluable" % k)
+                continue
+            pushed = all(v == tv for v, (_bb, tv, _de) in zip(vals, doms))
+            if not pushed:
+                badk.append("order %d: first moment %s" % (k, "pushed" if pushed else "missing"))
+        okf = not badk
+        fdetail = "moments[1] is pushed for every order the callers pass (decided on orders 2..6)" if okf else "; ".join(badk[:3])
+    ctx.ob(rule, "moments/first-moment-present", okf, mo.where(), fdetail, what="raw-moment vector lacks (or misplaces) the first moment")
 
 
 def _is_iteration_item(prog, pb, pe):
@@ -1923,8 +1981,9 @@ def rule_c18_quantiles(ctx, prog, rule="R13"):
     ctx.ob(rule, "quantile_axis_mut/removes-the-q-axis", ok, qa.where(), detail, what="single quantile is not slice 0 of the bulk result along axis")
     qm = prog.method("Quantile1dExt", "quantile_mut")
     finals = [ds(qm.def_expr(0, d)) for d in qm.reaching_defs(0, qm.exits()[0], "term")]
-    ok = any(isinstance(f, tuple) and f[0] == "agg" and f[2] == "Ok" and ds(f[3][0])[0] == "call" and ds(f[3][0])[1] == "into_scalar"
-             and unwrap_try(ds(f[3][0])[3][0])[1] == "quantile_axis_mut" for f in finals)
+    succ_finals = [f for f in finals if not (isinstance(f, tuple) and ((f[0] == "agg" and f[2] == "Err") or (f[0] == "call" and f[1] == "from_residual")))]
+    ok = len(succ_finals) == 1 and any(isinstance(f, tuple) and f[0] == "agg" and f[2] == "Ok" and ds(f[3][0])[0] == "call" and ds(f[3][0])[1] == "into_scalar"
+                                       and unwrap_try(ds(f[3][0])[3][0])[1] == "quantile_axis_mut" for f in finals)
     if not ok:
         # map form:  self.quantile_axis_mut(Axis(0), q, i).map(|x| x.into_scalar())
         for f in finals:
@@ -2501,6 +2560,21 @@ def rule_c08_structure(ctx, prog, rule="R19"):
                "not `D.dot(&D.t())` of one centred matrix: " + detail, what="covariance is not the Gram matrix of the centred rows")
         ctx.ob(rule, "cov/denominator", denom, cov.where(), "every entry divided by (n_observations − ddof), n_observations = len_of(Axis(1))" if denom else
                "entries are not divided by (len_of(self, Axis(1)) − ddof)", what="covariance denominator is not n − ddof")
+    # ddof precondition: cov never panics for a ddof below the number of observations (C08 quantifies over those only; what
+    # happens at ddof >= n is outside the property)
+    from .rules_result import rule_guard_table
+
+    def cov_leaf(s_):
+        def leaf(e):
+            if isinstance(e, tuple) and e[:2] == ("param", 2):
+                return s_
+            if isinstance(e, tuple) and e[0] == "call" and e[1] == "len_of" and len(e[3]) == 2 and ds(e[3][0])[:2] == ("param", 1) and is_axis1(e[3][1]):
+                return 5
+            return None
+        return leaf
+    rule_guard_table(ctx, tb, "cov/ddof-guard", involves=lambda e: isinstance(e, tuple) and e[:2] == ("param", 2), leaf_for=cov_leaf,
+                     samples=[0, 1, 4, 4.5, 5, 6], expect_diverge=lambda s_: False if s_ < 5 else None, describe=lambda s_: "ddof = %s with 5 observations" % s_,
+                     rule=rule, what="cov rejects a valid ddof or divides by n − ddof ≤ 0")
     pc = prog.method("CorrelationExt", "pearson_correlation")
     tp = prog.tracked(inline_calls(prog, pc, helper_filter(prog)))
     sv = success_values(tp)
